@@ -4509,8 +4509,15 @@ fn is_merge_key_value<W: AsRef<[u64]>>(key_value: &YamlValue<'_, W>) -> bool {
 /// element) yields no sources — merging from it is a silent no-op, matching
 /// yq rather than erroring.
 fn merge_sources<W: AsRef<[u64]>>(value_cursor: YamlCursor<'_, W>) -> Vec<YamlCursor<'_, W>> {
+    // Structural test only -- the same decision `YamlCursor::value()` makes
+    // for a container, without building its `YamlFields`: that would resolve
+    // the target's own merge keys, recursing once per link of a
+    // `<<: *previous` chain (stack overflow on a few thousand links) even
+    // though a merge source's fields are copied verbatim, never re-resolved.
     fn as_mapping<W: AsRef<[u64]>>(cursor: YamlCursor<'_, W>) -> bool {
-        matches!(cursor.value(), YamlValue::Mapping(_))
+        cursor.bp_pos != 0
+            && cursor.is_container()
+            && !cursor.index.is_sequence_at_bp(cursor.bp_pos)
     }
 
     match value_cursor.value() {
